@@ -1601,7 +1601,11 @@ class MindsDBParser(Parser):
 
     @_('MINUS constant %prec UMINUS')
     def constant(self, p):
-        return Constant(-p.constant.value)
+        value = p.constant.value
+        if not isinstance(value, (int, float)):
+            # -'x', -NULL
+            raise ParsingException(f'Unary minus must be applied to a number, got: {p.constant.to_string()}')
+        return Constant(-value)
 
     # update fields list
     @_('update_parameter',
